@@ -13,21 +13,27 @@ open OmplModel.Grid OmplModel.Heap
 earlier data and heap handle (the handle is invisible to the C++ event: `CellX::heapElement` is hidden from the user) -/
 def Fresh (cfg : Cfg) (c : Cell) : Prop := ∃ d0 h0, c.data = cfg.ev { c with data := d0, helem := h0 }
 
-def AllFresh (cfg : Cfg) (cells : List Cell) : Prop := ∀ c ∈ cells, Fresh cfg c
+/-- every cell satisfies `Q` -/
+def AllQ (Q : Cell → Prop) (cells : List Cell) : Prop := ∀ c ∈ cells, Q c
 
-theorem mem_setCell_imp {cells : List Cell} {c' d : Cell} (h : d ∈ setCell cells c') : d = c' ∨ d ∈ cells := by
+abbrev AllFresh (cfg : Cfg) (cells : List Cell) : Prop := AllQ (Fresh cfg) cells
+
+theorem mem_setCell_imp {cells : List Cell} {c' d : Cell} (h : d ∈ setCell cells c') :
+    d = c' ∨ (d ∈ cells ∧ d.coord ≠ c'.coord) := by
   unfold setCell at h
   obtain ⟨e, he, hd⟩ := List.mem_map.1 h
   split at hd
   · exact Or.inl hd.symm
-  · exact Or.inr (hd ▸ he)
+  · rename_i hne
+    subst hd
+    exact Or.inr ⟨he, by simpa using hne⟩
 
-theorem AllFresh.setCell {cfg : Cfg} {cells : List Cell} {c' : Cell} (h : AllFresh cfg cells) (hc : Fresh cfg c') :
-    AllFresh cfg (setCell cells c') := by
+theorem AllQ.setCell {Q : Cell → Prop} {cells : List Cell} {c' : Cell} (h : AllQ Q cells) (hc : Q c') :
+    AllQ Q (setCell cells c') := by
   intro d hd
   rcases mem_setCell_imp hd with rfl | hd
   · exact hc
-  · exact h d hd
+  · exact h d hd.1
 
 theorem bumpUp_fresh (cfg : Cfg) (c : Cell) (h : Nat) : Fresh cfg { bumpUp cfg c with helem := h } :=
   ⟨c.data, c.helem, rfl⟩
@@ -35,21 +41,21 @@ theorem bumpUp_fresh (cfg : Cfg) (c : Cell) (h : Nat) : Fresh cfg { bumpUp cfg c
 theorem bumpDn_fresh (cfg : Cfg) (c : Cell) (h : Nat) : Fresh cfg { bumpDn cfg c with helem := h } :=
   ⟨c.data, c.helem, rfl⟩
 
-theorem touchCreate_fresh {cfg : Cfg} {g : GridB} (x : Coord) (h : AllFresh cfg g.cells) :
-    AllFresh cfg (touchCreate cfg g x).cells := by
+theorem touchCreate_fresh {cfg : Cfg} {Q : Cell → Prop} (hF : ∀ c, Fresh cfg c → Q c) {g : GridB} (x : Coord) (h : AllQ Q g.cells) :
+    AllQ Q (touchCreate cfg g x).cells := by
   cases hget : getCell g.cells x with
   | none => unfold touchCreate; rw [hget]; exact h
   | some c =>
     rw [touchCreate_some hget]
     simp only []
     split
-    · exact h.setCell (bumpUp_fresh cfg c _)
+    · exact h.setCell (hF _ (bumpUp_fresh cfg c _))
     · split
-      · exact h.setCell (bumpUp_fresh cfg c _)
-      · exact h.setCell (bumpUp_fresh cfg c _)
+      · exact h.setCell (hF _ (bumpUp_fresh cfg c _))
+      · exact h.setCell (hF _ (bumpUp_fresh cfg c _))
 
-theorem touchRemove_fresh {cfg : Cfg} {g : GridB} (x : Coord) (h : AllFresh cfg g.cells) :
-    AllFresh cfg (touchRemove cfg g x).cells := by
+theorem touchRemove_fresh {cfg : Cfg} {Q : Cell → Prop} (hF : ∀ c, Fresh cfg c → Q c) {g : GridB} (x : Coord) (h : AllQ Q g.cells) :
+    AllQ Q (touchRemove cfg g x).cells := by
   cases hget : getCell g.cells x with
   | none => unfold touchRemove; rw [hget]; exact h
   | some c =>
@@ -57,23 +63,23 @@ theorem touchRemove_fresh {cfg : Cfg} {g : GridB} (x : Coord) (h : AllFresh cfg 
     simp only []
     split
     · split
-      · exact h.setCell (bumpDn_fresh cfg c _)
-      · exact h.setCell (bumpDn_fresh cfg c _)
-    · exact h.setCell (bumpDn_fresh cfg c _)
+      · exact h.setCell (hF _ (bumpDn_fresh cfg c _))
+      · exact h.setCell (hF _ (bumpDn_fresh cfg c _))
+    · exact h.setCell (hF _ (bumpDn_fresh cfg c _))
 
-theorem foldl_fresh {cfg : Cfg} {f : GridB → Coord → GridB}
-    (hf : ∀ g x, AllFresh cfg g.cells → AllFresh cfg (f g x).cells) :
-    ∀ (L : List Coord) (g : GridB), AllFresh cfg g.cells → AllFresh cfg (L.foldl f g).cells
+theorem foldl_fresh {Q : Cell → Prop} {f : GridB → Coord → GridB}
+    (hf : ∀ g x, AllQ Q g.cells → AllQ Q (f g x).cells) :
+    ∀ (L : List Coord) (g : GridB), AllQ Q g.cells → AllQ Q (L.foldl f g).cells
   | [], _, h => h
   | y :: L, g, h => foldl_fresh hf L (f g y) (hf g y h)
 
-theorem createCell_fresh {cfg : Cfg} {g : GridB} (x : Coord) (d : Int) (h : AllFresh cfg g.cells) :
-    AllFresh cfg (createCell cfg g x d).1.cells := by
-  show AllFresh cfg (List.foldl (touchCreate cfg) g ((neighbors cfg.dim g.cells x).map (·.coord))).cells
-  exact foldl_fresh (fun _ x => touchCreate_fresh x) _ g h
+theorem createCell_fresh {cfg : Cfg} {Q : Cell → Prop} (hF : ∀ c, Fresh cfg c → Q c) {g : GridB} (x : Coord) (d : Int) (h : AllQ Q g.cells) :
+    AllQ Q (createCell cfg g x d).1.cells := by
+  show AllQ Q (List.foldl (touchCreate cfg) g ((neighbors cfg.dim g.cells x).map (·.coord))).cells
+  exact foldl_fresh (fun _ x => touchCreate_fresh hF x) _ g h
 
-theorem AllFresh.addCell {cfg : Cfg} {cells : List Cell} {c : Cell} (h : AllFresh cfg cells) (hc : Fresh cfg c) :
-    AllFresh cfg (addCell cells c) := by
+theorem AllQ.addCell {Q : Cell → Prop} {cells : List Cell} {c : Cell} (h : AllQ Q cells) (hc : Q c) :
+    AllQ Q (addCell cells c) := by
   unfold Grid.addCell
   split
   · exact h
@@ -83,83 +89,123 @@ theorem AllFresh.addCell {cfg : Cfg} {cells : List Cell} {c : Cell} (h : AllFres
     · simp at hd; subst hd; exact hc
 
 /-- `GridB::add` runs the event on the new cell before filing it -/
-theorem addCellB_fresh {cfg : Cfg} {g : GridB} (p : Cell) (h : AllFresh cfg g.cells) :
-    AllFresh cfg (addCellB cfg g p).cells := by
+theorem addCellB_fresh {cfg : Cfg} {Q : Cell → Prop} (hF : ∀ c, Fresh cfg c → Q c) {g : GridB} (p : Cell) (h : AllQ Q g.cells) :
+    AllQ Q (addCellB cfg g p).cells := by
   unfold addCellB
   simp only []
   split
-  · exact h.addCell ⟨p.data, p.helem, rfl⟩
-  · exact h.addCell ⟨p.data, p.helem, rfl⟩
+  · exact h.addCell (hF _ ⟨p.data, p.helem, rfl⟩)
+  · exact h.addCell (hF _ ⟨p.data, p.helem, rfl⟩)
 
-theorem removeCell_fresh {cfg : Cfg} {g : GridB} (x : Coord) (h : AllFresh cfg g.cells) :
-    AllFresh cfg (removeCell cfg g x).1.cells := by
-  have h1 : AllFresh cfg (List.foldl (touchRemove cfg) g ((neighbors cfg.dim g.cells x).map (·.coord))).cells :=
-    foldl_fresh (fun _ x => touchRemove_fresh x) _ g h
+theorem removeCell_fresh {cfg : Cfg} {Q : Cell → Prop} (hF : ∀ c, Fresh cfg c → Q c) {g : GridB} (x : Coord) (h : AllQ Q g.cells) :
+    AllQ Q (removeCell cfg g x).1.cells := by
+  have h1 : AllQ Q (List.foldl (touchRemove cfg) g ((neighbors cfg.dim g.cells x).map (·.coord))).cells :=
+    foldl_fresh (fun _ x => touchRemove_fresh hF x) _ g h
   unfold removeCell
   simp only []
   split
   · exact h1
   · split <;> exact fun d hd => h1 d (List.mem_filter.1 hd).1
 
-theorem update_fresh {cfg : Cfg} {g : GridB} (x : Coord) (d : Int) (h : AllFresh cfg g.cells) :
-    AllFresh cfg (update cfg g x d).cells := by
+theorem update_fresh {cfg : Cfg} {Q : Cell → Prop} (hF : ∀ c, Fresh cfg c → Q c) {g : GridB} (x : Coord) (d : Int) (h : AllQ Q g.cells) :
+    AllQ Q (update cfg g x d).cells := by
   unfold update
   split
   · exact h
   · rename_i c _
     simp only []
-    split <;> exact h.setCell ⟨d, c.helem, rfl⟩
+    split <;> exact h.setCell (hF _ ⟨d, c.helem, rfl⟩)
 
-theorem updateAll_fresh {cfg : Cfg} {g : GridB} (chg : List (Coord × Int)) :
-    AllFresh cfg (updateAll cfg g chg).cells := by
+theorem updateAll_fresh {cfg : Cfg} {Q : Cell → Prop} (hF : ∀ c, Fresh cfg c → Q c) {g : GridB} (chg : List (Coord × Int)) :
+    AllQ Q (updateAll cfg g chg).cells := by
   intro c hc
+  apply hF
   obtain ⟨e, _, rfl⟩ := List.mem_map.1 (show c ∈ (pokeData g.cells chg).map (fun c => { c with data := cfg.ev c }) from hc)
   exact ⟨e.data, e.helem, rfl⟩
 
-theorem newCell_fresh {cfg : Cfg} {g : GridB} (x : Coord) (d : Int) (h : AllFresh cfg g.cells) :
-    AllFresh cfg (newCell cfg g x d).cells := by
-  rw [newCell_eq]; exact addCellB_fresh _ (createCell_fresh x d h)
+theorem newCell_fresh {cfg : Cfg} {Q : Cell → Prop} (hF : ∀ c, Fresh cfg c → Q c) {g : GridB} (x : Coord) (d : Int) (h : AllQ Q g.cells) :
+    AllQ Q (newCell cfg g x d).cells := by
+  rw [newCell_eq]; exact addCellB_fresh hF _ (createCell_fresh hF x d h)
 
-theorem step_fresh {cfg : Cfg} {s : GridS} (op : Op) (h : AllFresh cfg s.g.cells) :
-    AllFresh cfg (step cfg s op).g.cells := by
+theorem step_fresh {cfg : Cfg} {Q : Cell → Prop} (hF : ∀ c, Fresh cfg c → Q c) {s : GridS} (op : Op) (h : AllQ Q s.g.cells) :
+    AllQ Q (step cfg s op).g.cells := by
   obtain ⟨g, pend⟩ := s
   cases op with
   | create x d =>
-    show AllFresh cfg (if pend.isSome || has g.cells x then (⟨g, pend⟩ : GridS) else _).g.cells
+    show AllQ Q (if pend.isSome || has g.cells x then (⟨g, pend⟩ : GridS) else _).g.cells
     split
     · exact h
-    · exact createCell_fresh x d h
+    · exact createCell_fresh hF x d h
   | add =>
     cases pend with
     | none => exact h
-    | some p => exact addCellB_fresh p h
+    | some p => exact addCellB_fresh hF p h
   | abandon =>
     cases pend with
     | none => exact h
-    | some p => exact removeCell_fresh p.coord h
+    | some p => exact removeCell_fresh hF p.coord h
   | new x d =>
-    show AllFresh cfg (if pend.isSome then (⟨g, pend⟩ : GridS) else _).g.cells
+    show AllQ Q (if pend.isSome then (⟨g, pend⟩ : GridS) else _).g.cells
     split
     · exact h
-    · show AllFresh cfg (if has g.cells x then g else newCell cfg g x d).cells
+    · show AllQ Q (if has g.cells x then g else newCell cfg g x d).cells
       split
       · exact h
-      · exact newCell_fresh x d h
+      · exact newCell_fresh hF x d h
   | rm x =>
-    show AllFresh cfg (if pend.isSome then (⟨g, pend⟩ : GridS) else _).g.cells
+    show AllQ Q (if pend.isSome then (⟨g, pend⟩ : GridS) else _).g.cells
     split
     · exact h
-    · show AllFresh cfg (if has g.cells x then (removeCell cfg g x).1 else g).cells
+    · show AllQ Q (if has g.cells x then (removeCell cfg g x).1 else g).cells
       split
-      · exact removeCell_fresh x h
+      · exact removeCell_fresh hF x h
       · exact h
-  | upd x d => exact update_fresh x d h
-  | updAll chg => exact updateAll_fresh chg
+  | upd x d => exact update_fresh hF x d h
+  | updAll chg => exact updateAll_fresh hF chg
   | clear =>
-    show AllFresh cfg (if pend.isSome then (⟨g, pend⟩ : GridS) else _).g.cells
+    show AllQ Q (if pend.isSome then (⟨g, pend⟩ : GridS) else _).g.cells
     split
     · exact h
     · intro c hc; cases hc
+
+/-- the fused protocol of Model/Grid.lean (what `Discretization` uses) -/
+theorem gstep_pred {cfg : Cfg} {Q : Cell → Prop} (hF : ∀ c, Fresh cfg c → Q c) {g : GridB} (op : Grid.Op)
+    (h : AllQ Q g.cells) : AllQ Q (Grid.step cfg g op).cells := by
+  cases op with
+  | new x d =>
+    show AllQ Q (if has g.cells x then g else newCell cfg g x d).cells
+    split
+    · exact h
+    · exact newCell_fresh hF x d h
+  | rm x =>
+    show AllQ Q (if has g.cells x then (removeCell cfg g x).1 else g).cells
+    split
+    · exact removeCell_fresh hF x h
+    · exact h
+  | upd x d => exact update_fresh hF x d h
+  | updAll chg => exact updateAll_fresh hF chg
+  | clear => intro c hc; cases hc
+
+/-- `update(cell at x)`: the cell at `x` need not satisfy `Q` beforehand -/
+theorem update_pred {cfg : Cfg} {Q : Cell → Prop} (hF : ∀ c, Fresh cfg c → Q c) {g : GridB} (x : Coord) (d : Int)
+    (h : ∀ c ∈ g.cells, c.coord ≠ x → Q c) : AllQ Q (update cfg g x d).cells := by
+  unfold update
+  split
+  · rename_i hnone
+    intro c hc
+    refine h c hc ?_
+    rintro rfl
+    have : has g.cells c.coord = true := has_coord_of_mem hc
+    unfold has at this
+    rw [hnone] at this; cases this
+  · rename_i c hget
+    have hcx : c.coord = x := (getCell_some_mem hget).2
+    simp only []
+    split <;>
+    · intro e he
+      rcases mem_setCell_imp he with rfl | ⟨he', hne⟩
+      · exact hF _ ⟨d, c.helem, rfl⟩
+      · exact h e he' (by rw [← hcx]; exact hne)
 
 theorem run_fresh (cfg : Cfg) (ops : List Op) : AllFresh cfg (run cfg ops).g.cells := by
   unfold run
@@ -167,7 +213,7 @@ theorem run_fresh (cfg : Cfg) (ops : List Op) : AllFresh cfg (run cfg ops).g.cel
     intro ops
     induction ops with
     | nil => intro s h; exact h
-    | cons op ops ih => intro s h; exact ih _ (step_fresh op h)
+    | cons op ops ih => intro s h; exact ih _ (step_fresh (fun _ h => h) op h)
   exact this ops {} (fun c hc => by cases hc)
 
 end OmplModel.GridS
